@@ -20,6 +20,8 @@ ASSUMES = ['sequential consistency at attribute-access granularity (the GIL make
            'the analysis is predictive: it covers the interleavings of the recorded solo traces up to the first foreign read']
 
 DT_String.COOKLOCK = schedsmt.LogLock(DT_String.COOKLOCK)
+import DocumentTemplate.DT_Try, DocumentTemplate.DT_In, DocumentTemplate.DT_Var, DocumentTemplate.DT_Let, DocumentTemplate.DT_With, DocumentTemplate.DT_Raise, DocumentTemplate.DT_If  # noqa: E401,E402
+N_MODULE_BUFFERS = schedsmt.instrument_module_buffers()
 
 
 class Guarded(HTML):
@@ -65,6 +67,8 @@ SCEN = {
                    {'A': dict(s=DATA, sz=1, st=1, ov=0), 'B': dict(s=DATA, sz=2, st=2, ov=1)}),
     'subtemplate': (lambda: HTML('<dtml-var sub>|<dtml-with w mapping><dtml-var sub></dtml-with>', sub=HTML('<dtml-in s mapping sort_expr="k">&dtml-i;</dtml-in><dtml-var q missing=none>')), True,
                     {'A': dict(s=DATA, k='a', w={'q': 'A'}), 'B': dict(s=DATA, k='b', w={'q': 'B'})}),
+    'try_error_tb': (lambda: HTML('<dtml-try><dtml-var "10/q2"><dtml-var missingname><dtml-except ZeroDivisionError>Z[<dtml-var error_type>|<dtml-var "_.len(error_tb) > 0">|<dtml-var "\'KeyError\' in error_tb">]<dtml-except>K[<dtml-var error_type>|<dtml-var "\'ZeroDivision\' in error_tb">]</dtml-try>'), True,
+                     {'A': dict(q2=0), 'B': dict(q2=5)}),
     'vars_fmt': (lambda: HTML('<dtml-var x fmt="%05d"> <dtml-var t size=3 etc=".."> <dtml-var n null="nil"> <dtml-var u upper html_quote>&dtml.url_quote-u;'), True,
                  {'A': dict(x=1, t='abcdef', n=None, u='a<b'), 'B': dict(x=22, t='xy', n=3, u='c d')}),
 }
